@@ -10,10 +10,24 @@
    A thread is a control stack; one step of a thread is one iteration of eval's loop (poll, then one
    instruction), one dispatch of a callback by a builtin's Go loop, one frame of error unwinding, or waking
    from a select.  Global actions: cancel the context, let the watcher goroutine run, step a thread.
-   [shares] says whether Clone() copies the pointer to the run's halt flag (b731f6b); with [shares = false]
-   the model is the code before that repair (a clone polls a flag of its own that nobody sets). *)
+   A [ccfg] says which variant of the code is modelled: [k_current] is the code as it is; each other
+   configuration is the code without one repair (clones with a flag of their own that nobody sets; builtins that
+   rebuild the callback's error from its text; try() recovering from a cancellation; range/sleep waking silently). *)
 From Coq Require Import List Bool Arith Lia.
 Import ListNotations.
+
+Record ccfg := mkK {
+  shares : bool;        (* Clone() copies the pointer to the run's halt flag (b731f6b) *)
+  keeps_err : bool;     (* each/map/filter/sorted/call hand on the callback's error (644b857); thread.wait wraps
+                           ctx.Err() with %w (dafa602); else the error is rebuilt from its text *)
+  try_fatal : bool;     (* try() does not recover once the context is done (ee030a3) *)
+  wake_reports : bool   (* a range over a channel / time.sleep ended by a done context returns ctx.Err() (b9a89d8) *)
+}.
+Definition k_current    := mkK true  true  true  true.
+Definition k_noclone    := mkK false true  true  true.
+Definition k_textual    := mkK true  false true  true.
+Definition k_tryrecovers := mkK true true  false true.
+Definition k_wakesilent := mkK true  true  true  false.
 
 Inductive blk := BRecv | BSend | BRecvM | BNext | BSleep | BWait.
 Inductive cbk := CbEach | CbMap | CbFilter | CbSorted | CbCall | CbTry.
@@ -62,8 +76,9 @@ Record cstate := mkC {
   threads : list thread          (* thread 0 is the evaluation itself (risor.Eval's goroutine) *)
 }.
 
-Definition stringify (e : ecls) : ecls :=
-  match e with ECtx => ECtxText | other => other end.
+(* what a callback-carrying builtin makes of the callback's error *)
+Definition stringify (k : ccfg) (e : ecls) : ecls :=
+  if keeps_err k then e else match e with ECtx => ECtxText | other => other end.
 
 Definition polled (c : cstate) (t : thread) : bool := tshare t && flag c.
 Definition halt_err (c : cstate) : ecls := if cancelled c then ECtx else ENilHalt.
@@ -92,15 +107,16 @@ Definition pop_to t st m cur := mkT (tshare t) cur st m None false.
 Definition finish t r := mkT (tshare t) None [] (tmode t) (Some r) false.
 Definition park t := mkT (tshare t) (tcur t) (tstack t) Normal None true.
 (* what the select of a blocking primitive returns when the context is done *)
-Definition wake t (b : blk) :=
+Definition wake (k : ccfg) t (b : blk) :=
   match b with
   | BRecv | BSend | BRecvM => unwind t ECtx     (* return ctx.Err() *)
-  | BWait => unwind t EWait                    (* Errorf("wait error: %s", ctx.Err()) *)
-  | BNext | BSleep => fin_piece t               (* the loop ends / sleep returns nil *)
+  | BWait => unwind t (if keeps_err k then ECtx else EWait)     (* "wait error: %w" wraps ctx.Err() / %s did not *)
+  | BNext | BSleep => if wake_reports k then unwind t ECtx      (* ForIter / Sleep return ctx.Err() *)
+                      else fin_piece t                          (* the loop ended / sleep returned nil *)
   end.
 
-(* one step of a thread that is enabled; [shares]: Clone() copies the halt flag pointer *)
-Definition step_thread (shares : bool) (c : cstate) (t : thread) : outcome :=
+(* one step of a thread that is enabled *)
+Definition step_thread (k : ccfg) (c : cstate) (t : thread) : outcome :=
   match tdone t with
   | Some _ => upd t
   | None =>
@@ -112,18 +128,22 @@ Definition step_thread (shares : bool) (c : cstate) (t : thread) : outcome :=
         | FCb cb rem body _ :: r =>
             match cb with
             | CbTry =>
+                if try_fatal k && cancelled c then
+                  (* the evaluation's context is done: try returns ctx.Err() *)
+                  upd (pop_to t r (Unwind ECtx) None)
+                else
                 (* try: the error is kept aside; the next function is tried, or nil is returned *)
                 match rem with
                 | 0 => upd (pop_to t r Normal None)
-                | S k => upd (pop_to t (FCb CbTry k body None :: r) Normal (Some body))
+                | S n => upd (pop_to t (FCb CbTry n body None :: r) Normal (Some body))
                 end
             | CbSorted =>
                 (* sort.SliceStable keeps calling the comparator; the last error is reported at the end *)
                 match rem with
-                | 0 => upd (pop_to t r (Unwind (stringify e)) None)
-                | S k => upd (pop_to t (FCb CbSorted k body (Some e) :: r) Normal (Some body))
+                | 0 => upd (pop_to t r (Unwind (stringify k e)) None)
+                | S n => upd (pop_to t (FCb CbSorted n body (Some e) :: r) Normal (Some body))
                 end
-            | _ => upd (pop_to t r (Unwind (stringify e)) None)     (* Errorf(err.Error()) *)
+            | _ => upd (pop_to t r (Unwind (stringify k e)) None)     (* NewError(err) / Errorf(err.Error()) *)
             end
         end
     | Normal =>
@@ -132,7 +152,7 @@ Definition step_thread (shares : bool) (c : cstate) (t : thread) : outcome :=
             match s, tparked t with
             | Block b, true =>
                 (* parked in a select: it wakes when the context is done *)
-                if cancelled c then upd (wake t b) else upd t
+                if cancelled c then upd (wake k t b) else upd t
             | _, _ =>
             (* an instruction: the halt flag is polled first *)
             if polled c t then upd (unwind t (halt_err c))
@@ -141,22 +161,22 @@ Definition step_thread (shares : bool) (c : cstate) (t : thread) : outcome :=
             | Skip => upd (fin_piece t)
             | Tick => mkO (fin_piece t) None true false
             | Mark => mkO (fin_piece t) None false true
-            | Block b => if cancelled c then upd (wake t b) else upd (park t)
+            | Block b => if cancelled c then upd (wake k t b) else upd (park t)
             | Seq a b => upd (push t (FSeq b) a)
             | Forever body => upd (push t (FLoop body) body)
             | Callback cb n body =>
                 match n with
                 | 0 => upd (fin_piece t)
-                | S k => upd (push t (FCb cb k body None) body)
+                | S m => upd (push t (FCb cb m body None) body)
                 end
             | Spawn body =>
                 mkO (fin_piece t)
-                    (Some (mkT (if shares then tshare t else false) (Some body) [FCall] Normal None false))
+                    (Some (mkT (if shares k then tshare t else false) (Some body) [FCall] Normal None false))
                     false false
             | Deep d body =>
                 match d with
                 | 0 => upd (set_cur t body)
-                | S k => upd (push t FCall (Deep k body))
+                | S m => upd (push t FCall (Deep m body))
                 end
             end
             end
@@ -168,10 +188,10 @@ Definition step_thread (shares : bool) (c : cstate) (t : thread) : outcome :=
                 if continues cb then
                   match rem with
                   | 0 => match err with
-                         | Some e => upd (pop_to t r (Unwind (stringify e)) None)
+                         | Some e => upd (pop_to t r (Unwind (stringify k e)) None)
                          | None => upd (pop_to t r Normal None)
                          end
-                  | S k => upd (pop_to t (FCb cb k body err :: r) Normal (Some body))
+                  | S m => upd (pop_to t (FCb cb m body err :: r) Normal (Some body))
                   end
                 else upd (pop_to t r Normal None)
             | f :: r =>
@@ -197,7 +217,7 @@ Fixpoint set_nth {A} (n : nat) (x : A) (l : list A) : list A :=
   | y :: r, S k => y :: set_nth k x r
   end.
 
-Definition act (shares : bool) (a : action) (c : cstate) : cstate :=
+Definition act (k : ccfg) (a : action) (c : cstate) : cstate :=
   match a with
   | ACancel => mkC true (flag c) (marked c) (ticks c) (threads c)
   | AFire => if cancelled c then mkC true true (marked c) (ticks c) (threads c) else c   (* <-doneChan; store 1 *)
@@ -206,7 +226,7 @@ Definition act (shares : bool) (a : action) (c : cstate) : cstate :=
       | None => c
       | Some t =>
           if enabled c t then
-            let o := step_thread shares c t in
+            let o := step_thread k c t in
             mkC (cancelled c) (flag c) (marked c || o_mark o)
                 (if o_tick o then S (ticks c) else ticks c)
                 (set_nth i (o_thread o) (threads c) ++ match o_spawn o with Some n => [n] | None => [] end)
@@ -217,8 +237,8 @@ Definition act (shares : bool) (a : action) (c : cstate) : cstate :=
 Definition init (s : shape) : cstate :=
   mkC false false false 0 [mkT true (Some s) [] Normal None false].
 
-Fixpoint run (shares : bool) (sched : list action) (c : cstate) : cstate :=
-  match sched with [] => c | a :: r => run shares r (act shares a c) end.
+Fixpoint run (k : ccfg) (sched : list action) (c : cstate) : cstate :=
+  match sched with [] => c | a :: r => run k r (act k a c) end.
 
 Definition all_done (c : cstate) : bool := forallb (fun t => match tdone t with Some _ => true | None => false end) (threads c).
 Definition main_result (c : cstate) : option tres :=
@@ -301,18 +321,18 @@ Definition seen (c : cstate) (l : list cstate) : bool := existsb (cstate_eqb c) 
 
 (* breadth-first closure of the reachable states (tick counter dropped); the thread count is capped so that a
    program that spawns in a loop still has a finite abstraction *)
-Fixpoint explore (shares : bool) (inst : instant) (maxthreads fuel : nat) (frontier visited : list cstate) : list cstate * bool :=
+Fixpoint explore (k : ccfg) (inst : instant) (maxthreads fuel : nat) (frontier visited : list cstate) : list cstate * bool :=
   match fuel with
   | 0 => (visited, false)
-  | S k =>
+  | S fuel' =>
       match frontier with
       | [] => (visited, true)
       | c :: rest =>
-          let succs := map (fun a => norm (act shares a c)) (actions inst c) in
+          let succs := map (fun a => norm (act k a c)) (actions inst c) in
           let fresh := fold_left (fun acc s =>
                                     if seen s acc || seen s visited || (maxthreads <? length (threads s)) then acc else acc ++ [s])
                                  succs [] in
-          explore shares inst maxthreads k (rest ++ fresh) (visited ++ fresh)
+          explore k inst maxthreads fuel' (rest ++ fresh) (visited ++ fresh)
       end
   end.
 
@@ -327,9 +347,9 @@ Record verdict := mkV {
 
 Definition add_res (r : tres) (l : list tres) : list tres := if existsb (tres_eqb r) l then l else l ++ [r].
 
-Definition analyse (shares : bool) (inst : instant) (s : shape) : verdict :=
+Definition analyse (k : ccfg) (inst : instant) (s : shape) : verdict :=
   let c0 := init s in
-  let '(states, complete) := explore shares inst 6 20000 [c0] [c0] in
+  let '(states, complete) := explore k inst 6 20000 [c0] [c0] in
   let results := fold_left (fun acc c => match main_result c with
                                          | Some r => if cancelled c then add_res r acc else acc
                                          | None => acc end) states [] in
